@@ -444,16 +444,9 @@ theorem wf (p : Params) (S S' : Schemas) (hw : WF S) (h : run p S = .ok S') : WF
 /-- entry point types that a hook-free walk survives (no nil kind pointers) -/
 def EPWalkable (S : Schemas) : Prop := ∀ s ∈ S, walkFail [] s.entryPointType = none
 
-/-- the full statement of "it does what it documents": on schemas without nil kind pointers
-    the transformation succeeds -/
-def total_full : Prop := ∀ (p : Params) (S : Schemas), EPWalkable S → ∃ S', run p S = .ok S'
-
-/-- decidable hypothesis: no targeted object has a nil `Hints` map (or no hint is configured) -/
-def noNilTarget (p : Params) (S : Schemas) : Bool :=
-  S.all fun s => s.objects.all fun kv => !(p.object.matchesObj kv.2 && !p.hints.isEmpty && kv.2.ty.getMeta.hintsNil)
-
-theorem total_partial (p : Params) (S : Schemas) (hep : EPWalkable S) (hn : noNilTarget p S = true) :
-    ∃ S', run p S = .ok S' := by
+/-- "it does what it documents" includes that it works: on schemas without nil kind pointers the
+    transformation succeeds (since fix d683cb9 in /repo, also on a nil `Hints` map) -/
+theorem total (p : Params) (S : Schemas) (hep : EPWalkable S) : ∃ S', run p S = .ok S' := by
   refine ⟨apply p S, ?_⟩
   have : fail? p S = none := by
     unfold fail?
@@ -463,36 +456,29 @@ theorem total_partial (p : Params) (S : Schemas) (hep : EPWalkable S) (hn : noNi
     rw [hep s hs]
     simp only
     apply (firstFail_none _ s.objects).mpr
-    intro kv hkv
-    have h1 := List.all_eq_true.mp (List.all_eq_true.mp hn s hs) kv hkv
-    unfold objFail
-    simp only [Bool.not_eq_true'] at h1
-    simp [h1]
+    intro kv _
+    rfl
   simp [run, this, mkRun]
 
-/-! witness: an object whose type came from a YAML `as:` (nil hints), one hint configured -/
+/-- the same statement for the code as it was before the fix -/
+def total_full_preFix : Prop := ∀ (p : Params) (S : Schemas), EPWalkable S → ∃ S', runPreFix p S = .ok S'
+
+/-! witness of the former defect: an object whose type came from a YAML `as:` (nil hints) -/
 def wO : Obj := { name := "A", selfPkg := "p", selfName := "A", ty := .scalar "string" .nil [] (Meta.nilHints {}) }
 def wSchemas : Schemas := [{ pkg := "p", objects := [("A", wO)] }]
 def wP : Params := { object := ⟨"p", "A"⟩, hints := [("kind", .str "x")] }
 
 def isOk : Outcome Schemas → Bool | .ok _ => true | _ => false
-def isPanic : Outcome Schemas → Bool | .panic _ => true | _ => false
 
-/-- how such an object arises through the public API: `retype_object` with a YAML `as:` (whose
-    `Hints` map is nil), then `hint_object` on it — `Passes.Process` panics -/
-def wS0 : Schemas := [{ pkg := "p", objects := [("A", { wO with ty := .scalar "bool" .nil [] freshMeta })] }]
-def wRetype : RetypeObject.Params :=
-  { object := ⟨"p", "A"⟩, as_ := .scalar "string" .nil [] (Meta.nilHints {}), comments := none }
-
-theorem counterexample_reachable :
-    isPanic (process [.retypeObject wRetype, .hintObject wP] wS0) = true := by decide
-
-theorem counterexample : ¬ total_full := by
+theorem counterexample_preFix : ¬ total_full_preFix := by
   intro hfull
   obtain ⟨S', h⟩ := hfull wP wSchemas (by intro s hs; simp only [wSchemas, List.mem_singleton] at hs; subst hs; rfl)
-  have : isOk (run wP wSchemas) = true := by rw [h]; rfl
+  have : isOk (runPreFix wP wSchemas) = true := by rw [h]; rfl
   revert this
   decide
+
+/-- and after the fix the same input simply gets the hint -/
+example : isOk (run wP wSchemas) = true := by decide
 
 end HintObject
 end Cog.Xform
